@@ -38,13 +38,13 @@ GROUPS = {
         'file': 'lib/python/treadmill/scheduler/loader.py',
         'tests': ['lib/python/treadmill/tests/scheduler_test.py',
                   'lib/python/treadmill/tests/master_test.py'],
-        'props': ['C09', 'C11', 'C10', 'C01', 'C03', 'C05', 'C06', 'C08'],
+        'props': ['C09', 'C11', 'C10', 'C02', 'C01', 'C03', 'C05', 'C06', 'C08'],
     },
     'master': {
         'file': 'lib/python/treadmill/scheduler/master.py',
         'tests': ['lib/python/treadmill/tests/scheduler_test.py',
                   'lib/python/treadmill/tests/master_test.py'],
-        'props': ['C09', 'C10', 'C11', 'C08', 'C01', 'C05'],
+        'props': ['C09', 'C10', 'C11', 'C02', 'C08', 'C01', 'C05'],
     },
 }
 
